@@ -21,6 +21,7 @@ import (
 	"github.com/tikv/client-go/v2/oracle"
 	"github.com/tikv/client-go/v2/tikvrpc"
 	"github.com/tikv/client-go/v2/txnkv/txnsnapshot"
+	"github.com/tikv/client-go/v2/util/codec"
 	"github.com/tikv/client-go/v2/verifh/vrep"
 
 	"verif/e2e/uni"
@@ -223,8 +224,8 @@ func (h *hist) layout() string {
 	seen := map[uint64]bool{}
 	for _, k := range append([]string{""}, h.points...) {
 		key := []byte(k)
-		if h.backend == uni.Uni && len(key) > 0 {
-			continue // the layout string is diagnostics only; unistore wants encoded keys
+		if len(key) > 0 {
+			key = codec.EncodeBytes(nil, key) // region keys of both mocks are memcomparable-encoded
 		}
 		reg, leader, _, _ := h.u.Cluster.GetRegionByKey(key)
 		if reg == nil || seen[reg.Id] {
@@ -259,7 +260,7 @@ func (h *hist) planHook(o *obs) (at int64, fn func()) {
 	case x < 40 || (!mock && x < 75):
 		o.hook = "split"
 		fn = func() {
-			if h.u.C05SplitAt(pt) {
+			if h.u.SplitAt(pt) {
 				o.hookDone.Store(true)
 				h.topo.split.Add(1)
 			}
@@ -267,7 +268,7 @@ func (h *hist) planHook(o *obs) (at int64, fn func()) {
 	case x < 58 && mock:
 		o.hook = "merge"
 		fn = func() {
-			if h.u.C05MergeAt(key) {
+			if h.u.MergeAt(key) {
 				o.hookDone.Store(true)
 				h.topo.merge.Add(1)
 			}
@@ -275,7 +276,7 @@ func (h *hist) planHook(o *obs) (at int64, fn func()) {
 	case x < 75 && mock:
 		o.hook = "move-leader"
 		fn = func() {
-			if h.u.C05MoveLeader(key, pick) {
+			if h.u.MoveLeader(key, pick) {
 				o.hookDone.Store(true)
 				h.topo.move.Add(1)
 			}
@@ -915,6 +916,9 @@ func (h *hist) judge(o *obs, truth *uni.Truth) {
 		return
 	}
 	r.Count("reads_judged", 1)
+	for _, c := range o.classes {
+		r.Count("lock_in_judged_read:"+c, 1)
+	}
 	if o.demanded && len(o.classes) > 0 {
 		r.Count("reads_judged_with_decided_locks", 1)
 	}
